@@ -1,0 +1,39 @@
+//go:build verif
+
+package proxy
+
+// Verification export hooks for property C22 (commands run on the proxy or reach the backend
+// exactly once) — /verif/harness/cmd/c22. Thin package-internal constructors only: the real
+// newConnectedPlayer / newServerConnection / newClientPlaySessionHandler over caller-supplied
+// connections. Compiled only with `-tags verif`.
+
+import (
+	"net"
+
+	"go.minekube.com/gate/pkg/edition/java/netmc"
+	"go.minekube.com/gate/pkg/edition/java/profile"
+	"go.minekube.com/gate/pkg/edition/java/proto/packet"
+	"go.minekube.com/gate/pkg/edition/java/proxy/crypto"
+	"go.minekube.com/gate/pkg/util/permission"
+)
+
+// VerifC22NewClientPlayHandler returns the real client play session handler (whose chatHandler
+// uses p.Command() and p.Event()) of a real connectedPlayer on `client`, connected to a backend
+// whose connection is `backend`. permFunc is the player's permission function (as set by the
+// PermissionsSetupEvent in production), key its 1.19+ identified key (nil-able).
+func VerifC22NewClientPlayHandler(p *Proxy, client, backend netmc.MinecraftConn, prof *profile.GameProfile,
+	key crypto.IdentifiedKey, permFunc permission.Func) netmc.SessionHandler {
+	player := newConnectedPlayer(client, prof, nil, packet.LoginHandshakeIntent, true, key, &sessionHandlerDeps{
+		proxy:          p,
+		registrar:      p,
+		configProvider: p,
+		eventMgr:       p.event,
+		authenticator:  p.authenticator,
+		loginsQuota:    p.loginsQuota,
+	})
+	player.permFunc = permFunc
+	sc := newServerConnection(newRegisteredServer(NewServerInfo("verif", &net.TCPAddr{IP: net.IPv4(127, 0, 0, 1), Port: 25566})), nil, player)
+	sc.connection = backend
+	player.setConnectedServer(sc)
+	return newClientPlaySessionHandler(player)
+}
